@@ -218,13 +218,20 @@ class PathResult:
         self.value = value
 
 
-def explore(fn, max_paths=400):
+EXPLORE_BUDGET_S = 150.0
+
+
+def explore(fn, max_paths=400, budget_s=None):
     """Run fn(ctx) along every feasible path.  fn may raise SymRaise (recorded), PathEnd, PathInfeasible."""
     work = [[]]
     results = []
+    t0 = time.time()
+    budget = budget_s if budget_s is not None else EXPLORE_BUDGET_S
     while work:
         if len(results) > max_paths:
             raise Unsupported("path explosion")
+        if time.time() - t0 > budget:
+            raise Unsupported(f"exploration budget of {budget:.0f} s exhausted after {len(results)} paths")
         prefix = work.pop()
         ctx = Ctx(prefix)
         try:
